@@ -42,7 +42,10 @@ RULE = ('interpolation: api(nearest/linear/per-axis) x dimension 1-3 x per-axis 
         'convention. A case is non-trivial when the expected output is not constant; distinct = '
         'distinct such signatures together with the set of point categories hit.')
 TRUSTED = ['translator tools/extract/interp.py (AST of the edge/weight helpers, nearest rule and '
-           '_find_indices -> Gen/InterpEdges.lean)',
+           '_find_indices -> Gen/InterpEdges.lean; for the nearest rule and _find_indices sound '
+           'normalisations, else a behavioural probe of the live class that must equal the model on a '
+           'branch-covering exact grid — tools/extract/interp_probe.py; the source of each artefact is '
+           'recorded as extraction_source)',
            'np.searchsorted(side=left) on an ascending vector = number of nodes < p; NumPy '
            'advanced indexing/broadcasting of the per-axis index arrays (modelled as position-wise '
            'resp. cartesian combination); Python index -1 = last node',
@@ -67,6 +70,11 @@ ASSUMPTIONS = ['floating-point rounding is outside the model: on the exact strea
                'a vectorize-decorated callable without otypes takes its output dtype from the first '
                'evaluated point (documented np.vectorize behaviour): the callable as decorated is what '
                'is sampled, outside the property',
+               'complex values: the points are cast to complex and the normalised distance is a complex '
+               'division, which NumPy does not always round correctly (z/z can differ from 1 by 1 ulp): on '
+               'non-dyadic (decimal) grids node values of complex data are reproduced within about 1 ulp, '
+               'not bitwise — inside the stated tolerance; bitwise exactness is claimed (and tested) on the '
+               'dyadic streams only',
                'NaN/inf values and points are outside the model']
 
 SCH_NAME = {'n': 'nearest', 'l': 'linear'}
@@ -1953,8 +1961,16 @@ MODEL_BRANCHES = ['axis/{}/{}'.format(s_, b) for s_ in 'ln' for b in ('lo', 'hi'
 
 def regenerate(ctx):
     changed = extract_interp.regenerate()
+    # where each artefact came from: 'source' (AST, possibly after sound normalisations) or
+    # 'live (...)' (behavioural probe of the class of the tree under test, equal to the model)
+    ctx.extra['extraction_source'] = dict(extract_interp.LAST_INFO)
+    for k, v in sorted(extract_interp.LAST_INFO.items()):
+        if v.startswith('live'):
+            print('C15 extraction: {} obtained behaviourally: {}'.format(k, v)[:600])
     return [('extract(discr_utils edge/weight helpers, nearest rule, _find_indices -> '
-             'Gen/InterpEdges.lean)', True, 'regenerated' if changed else 'unchanged')]
+             'Gen/InterpEdges.lean)', True,
+             ('regenerated' if changed else 'unchanged') + '; ' +
+             ', '.join('{}={}'.format(k, v.split(' ')[0]) for k, v in sorted(extract_interp.LAST_INFO.items())))]
 
 
 def run(ctx):
